@@ -48,7 +48,8 @@ MUTANTS = [
     ('token_order_desc', [(P + 'utils/token_ordering.py',
       "    for token_freq_tuple in sorted(ordered_tokens, key=itemgetter(1)):\n        token_ordering[token_freq_tuple[0]] = order_idx\n        order_idx += 1\n\n    return token_ordering\n\n\ndef order_using",
       "    for token_freq_tuple in sorted(ordered_tokens, key=itemgetter(1), reverse=True):\n        token_ordering[token_freq_tuple[0]] = order_idx\n        order_idx += 1\n\n    return token_ordering\n\n\ndef order_using")],
-     [], 'silent: most-frequent-first is still one total order'),
+     ['C04'], 'a total order is all the prefix lemma needs (C01/C03/... stay quiet); C04 fires because '
+              'SuffixFilter (open finding F7) then drops OTHER qualifying pairs than the pinned estimate'),
 ]
 
 
